@@ -47,10 +47,13 @@ def observe_derive(case):
     import curies
     from curies.reconciliation import rewire
 
-    inputs, op, strs, pairs, _ = case
+    inputs, op, strs, pairs = case[:4]
+    mode = case[5] if len(case) > 5 else 0
+    convs = build_inputs(inputs, mode)
+    if mode:
+        inputs = [[qprops.v_record(r) for r in c.records] for c in convs]      # merging sorts the synonym lists
     ft = fold_table([s for recs in inputs for s in case_strings(recs)])
-    case = [inputs, op, strs, pairs, ft]
-    convs = [curies.Converter(qprops.mk_records(recs)) for recs in inputs]
+    case = [inputs, op, strs, pairs, ft, mode]
     try:
         R = run_op(convs, op)
     except Exception as e:
@@ -63,6 +66,20 @@ def observe_derive(case):
         except Exception:
             twice = [-1]
     return case, [0, qprops.battery(R, strs, pairs), twice]
+
+
+def build_inputs(inputs, mode):
+    """The input converters, built by the constructor (mode 0) or record by record / with the synonyms merged in afterwards
+    (qprops.build_converter modes 1..3): a derivation must treat a converter by what its records hold, however they got there."""
+    import curies
+
+    out = []
+    for recs in inputs:
+        try:
+            out.append(qprops.build_converter(recs, ":", mode) if mode else curies.Converter(qprops.mk_records(recs)))
+        except Exception:
+            out.append(curies.Converter(qprops.mk_records(recs)))
+    return out
 
 
 def overlapping_converters(rng, n):
@@ -148,7 +165,9 @@ class C09(DerivePlugin):
                 P = [p for p in allp if rng.random() < 0.4] + [rng.choice(qprops.CP_POOL) for _ in range(rng.choice([0, 0, 1]))]
                 op = [1, list(dict.fromkeys(P))]
                 strs, pairs = self.probes(rng, inputs)
-            yield [inputs, op, strs, pairs, []]
+            # chain folds over the records in the order the converters hold them, and with case folding that order matters; the model's
+            # inputs are in constructor (sorted) order, so only get_subconverter takes inputs built in other ways
+            yield [inputs, op, strs, pairs, [], rng.choice([0, 0, 0, 1, 2, 3]) if op[0] == 1 else 0]
 
     explanation = ("small-scope block: chain of every ordered pair of converters holding at most one record over the universe {a, A, b} x "
                    "{h/, h/a, k#} (one optional synonym on each side) in both case modes, and get_subconverter of every converter of at most two "
@@ -275,7 +294,7 @@ class C11(DerivePlugin):
             recs = qprops.gen_records(rng, rng.choice([1, 2, 2, 3, 3, 4, 5]))     # the pool includes the empty prefix
             m = gen_curie_remapping(rng, recs)
             strs, pairs = self.probes(rng, [recs], [b for _, b in m] + [a for a, _ in m])
-            yield [[recs], [2, m], strs, pairs, []]
+            yield [[recs], [2, m], strs, pairs, [], rng.choice([0, 0, 0, 1, 2, 3])]
 
     explanation = ("small-scope block: every converter of at most two records over the CURIE prefixes {a, A, b} (one optional synonym each) with "
                    "every remapping dictionary of at most two entries over {a, A, b, x} (every key order), and the three-record converter a, A, b "
@@ -358,7 +377,7 @@ class C12(DerivePlugin):
             m = gen_uri_mapping(rng, recs, by_curie)
             strs, pairs = self.probes(rng, [recs])
             strs += [b + "1" for _, b in m][:3]
-            yield [[recs], [4 if by_curie else 3, m], list(dict.fromkeys(strs)), pairs, []]
+            yield [[recs], [4 if by_curie else 3, m], list(dict.fromkeys(strs)), pairs, [], rng.choice([0, 0, 0, 1, 2, 3])]
 
     explanation = ("small-scope block: every converter of at most two records over the URI prefixes {h/, h/a, k#} (one optional URI-prefix "
                    "synonym each, CURIE prefixes a and b, b with the synonym A) with every mapping of at most two entries, old URI prefix -> new "
@@ -467,24 +486,28 @@ class C10(DerivePlugin):
             # provenance of the inputs: 0 fresh from the constructor; 1..5 the input is itself the RESULT of an earlier derivation that
             # changes nothing (empty remapping / rewiring, chain of one, sub-converter of everything) -- pipelines of derivations
             prov = rng.choice([0, 0, 0, 1, 2, 3, 4, 5])
-            yield [[inputs, op, strs, pairs, []], 1 + len(follow), is_disc, [follow, [extra_disc, prov]]]
+            yield [[inputs, op, strs, pairs, [], rng.choice([0, 0, 0, 1, 2, 3]) if kind not in ("chain", "discover") else 0], 1 + len(follow), is_disc,
+                   [follow, [extra_disc, prov]]]
 
     def observe(self, case):
         import curies
         from curies.discovery import discover
 
-        (inputs, op, strs, pairs, _), nsteps, is_disc, (follow, tail) = case
+        (inputs, op, strs, pairs), nsteps, is_disc, (follow, tail) = case[0][:4], case[1], case[2], case[3]
+        mode = case[0][5] if len(case[0]) > 5 else 0
         uris, prov = tail if (len(tail) == 2 and isinstance(tail[1], int)) else (tail, 0)
-        convs = [curies.Converter(qprops.mk_records(recs)) for recs in inputs]
+        convs = build_inputs(inputs, mode)
+        if mode:
+            inputs = [[qprops.v_record(r) for r in c.records] for c in convs]
         if prov:
             try:
                 convs = [derived_identity(c, prov) for c in convs]
                 inputs = [[qprops.v_record(r) for r in c.records] for c in convs]
             except Exception:
-                convs = [curies.Converter(qprops.mk_records(recs)) for recs in inputs]
+                convs = build_inputs(inputs, mode)
                 prov = 0
         ft = fold_table([s for recs in inputs for s in case_strings(recs)])
-        case = [[inputs, op, strs, pairs, ft], nsteps, is_disc, [follow, [uris, prov]]]
+        case = [[inputs, op, strs, pairs, ft, mode], nsteps, is_disc, [follow, [uris, prov]]]
         before = [snapshot(c, strs, pairs) for c in convs]
         ids = {id(r) for c in convs for r in c.records}
 
